@@ -3,6 +3,7 @@
 # Confirms a mutant produced by a fresh sub-agent (in /var/tmp/mutout-<Cxx>/m<k>) in a scratch worktree of /repo HEAD:
 # demo passes without / fails with the patch, listed existing tests pass with the patch. On success stores it as seeded/<Cxx>-m<k>/.
 set -u
+export OMP_NUM_THREADS=1 OPENBLAS_NUM_THREADS=1
 pid="$1"; k="$2"; tests="$3"
 cd "$(dirname "$0")/.."
 src="/var/tmp/mutout-$pid/m$k"; id="$pid-m$k"
